@@ -587,14 +587,9 @@ func (b *c08B) item(it int) {
 	}
 }
 
-// c08Build emits the items; every item ends its line, except that the last one does not when o.noEOL is set.
-func c08Build(o *c08Opt, items []int) *c08Doc {
-	d, _ := c08BuildShared(o, items, nil)
-	return d
-}
-
-// c08BuildShared: like c08Build; a document built with share repeats the slot texts of the
-// earlier builder, so that both files spell the shared names alike.
+// c08BuildShared emits the items; every item ends its line, except that the last one does not when o.noEOL is
+// set. A document built with share repeats the slot texts of the earlier builder, so that both files spell the
+// shared names alike.
 func c08BuildShared(o *c08Opt, items []int, share *c08B) (*c08Doc, *c08B) {
 	b := c08NewB(o)
 	if share != nil {
@@ -620,7 +615,7 @@ func c08BuildShared(o *c08Opt, items []int, share *c08B) (*c08Doc, *c08B) {
 
 // ---------------- validators (DESIGN §4.6) ----------------
 
-// runesBefore reports the number of astral characters among the first n runes of the line.
+// astralBefore reports the number of astral characters among the first n runes of the line.
 func (d *c08Doc) astralBefore(line, n int) int {
 	if line < 0 || line >= len(d.u16) {
 		return 0
@@ -635,24 +630,8 @@ func (d *c08Doc) astralBefore(line, n int) int {
 	return k
 }
 
-// multiByteBefore reports bytes minus runes among the first n runes of the line.
-func (d *c08Doc) multiByteBefore(line, n int) int {
-	if line < 0 || line >= len(d.boff) {
-		return 0
-	}
-	t := d.boff[line]
-	if n >= len(t) {
-		n = len(t) - 1
-	}
-	return t[n] - n
-}
-
 func (d *c08Doc) hasAstral(line int) bool {
 	return d.astralBefore(line, 1<<30) > 0
-}
-
-func (d *c08Doc) hasMultiByte(line int) bool {
-	return d.multiByteBefore(line, 1<<30) > 0
 }
 
 func (d *c08Doc) entryAt(line int) int {
